@@ -11,7 +11,7 @@ new = '''PROPS = {
             ("kani", "vk_lat", ["::aci", "point_u8", "coll::set_aci", "coll::map_aci_small", "coll::map_comm_idem", "coll2::vec_union_aci",
                                 "coll2::union_find_merge"], ("thorough",))],
     "C02": [("verus", "lat_ord"), ("verus", "lat_wrap"), ("verus", "lat_pair"), ("verus", "lat_dom"), ("verus", "lat_set"),
-            ("kani", "vk_lat", ["::changed", "point_u8", "coll::set_merge", "coll::map_merge_option", "coll::map_merge_singleton",
+            ("kani", "vk_lat", ["::changed", "point_u8", "coll::set_merge", "coll::map_merge_option", "coll::map_merge_singleton", "coll::map_merge_vecmap",
                                 "coll2::vec_union_merge", "coll3::tombstone_set_merge", "coll3::tombstone_map_merge_one_entry", "dompair_incomparable_keys"], ("quick",)),
             ("kani", "vk_lat", ["::changed", "coll3::tombstone_set_merge", "coll3::tombstone_map_merge", "dompair_incomparable_keys", "point_u8", "coll::set_merge", "coll::map_merge", "coll2::vec_union_merge",
                                 "coll2::union_find_union", "coll2::union_find_merge"], ("thorough",))],
@@ -22,7 +22,7 @@ new = '''PROPS = {
                                 "coll::map_bot_top_from", "coll::set_bot_every", "coll::map_cmp", "coll2::vec_union_cmp", "coll2::union_find_cmp", "coll3::tombstone_set_cmp"], ("thorough",))],
     "C04": [("verus", "lat_ord"), ("verus", "lat_wrap"), ("verus", "lat_pair"), ("verus", "lat_dom"), ("verus", "lat_set"),
             ("kani", "vk_lat", ["::from", "::aci", "point_u8", "dompair_incomparable_keys", "coll3::tombstone_set_lattice_from", "coll::set_merge", "coll::set_bot_top_from", "coll::map_merge_option",
-                                "coll::map_merge_singleton", "coll::map_bot_top_from", "coll2::vec_union_merge", "coll2::vec_union_cmp"], ("quick",)),
+                                "coll::map_merge_singleton", "coll::map_merge_vecmap", "coll::map_bot_top_from", "coll2::vec_union_merge", "coll2::vec_union_cmp"], ("quick",)),
             ("kani", "vk_lat", ["::from", "::aci", "point_u8", "dompair_incomparable_keys", "coll3::tombstone_set_lattice_from", "coll::set_merge", "coll::set_bot_top_from", "coll::map_merge",
                                 "coll::map_bot_top_from", "coll2::vec_union_merge", "coll2::vec_union_cmp", "coll2::union_find_union",
                                 "coll2::union_find_merge"], ("thorough",))],
